@@ -684,17 +684,19 @@ Fixpoint trace_ok (pos : Z) (ops obs : list val) {struct ops} : Prop :=
   | _, _ => False
   end.
 
-Lemma reader_step_S op s lrs o s' lrs' : InvS s -> rune_free op = true -> reader_step false op (s, lrs) = Some (o, (s', lrs')) ->
+Lemma reader_step_S op s lrs o s' lrs' : InvS s -> rune_free op = true -> is_reset op = false ->
+  reader_step false op (s, lrs) = Some (o, (s', lrs')) ->
   InvS s' /\ exists ret, o = VL [VL ret; VZ (rtotal s'); VZ (rpulled s'); VZ (buffered s')] /\
                         obs_law (rtotal s) op ret (rtotal s').
 Proof.
-  intros HS. unfold reader_step, rune_free.
+  intros HS. unfold reader_step, rune_free, is_reset.
   destruct op as [z|b|l]; try discriminate.
   destruct l as [|[tag| |] l]; try discriminate.
   destruct tag as [|p|p]; try discriminate.
   repeat (destruct p as [p|p|]; try discriminate).
   all: intros Hrf; try (vm_compute in Hrf; discriminate Hrf).
   all: destruct l as [|[n| |] [|? ?]]; try discriminate.
+  all: intros Hnr; try discriminate Hnr.
   all: try (destruct (rd_slice 10 s) as [[line0 ?] ?] eqn:E0).
   - (* 9 *) destruct (rd_writeto s) as [[d e] s1] eqn:E. intros H; inversion H; subst.
     destruct (rd_writeto_S s d e s' HS E) as (HS1 & [HL1 HL2]). split; [exact HS1|].
@@ -723,14 +725,16 @@ Proof.
     eexists. split; [reflexivity|]. exact HL.
 Qed.
 
-Theorem reader_run_S : forall ops s lrs obs, InvS s -> forallb rune_free ops = true ->
+Definition plain_rop (op : val) : bool := rune_free op && negb (is_reset op).
+Theorem reader_run_S : forall ops s lrs obs, InvS s -> forallb plain_rop ops = true ->
   reader_run false ops (s, lrs) = Some obs -> trace_ok (rtotal s) ops obs.
 Proof.
   induction ops as [|op ops IH]; intros s lrs obs HS Hrf; cbn [reader_run].
   - intros E; inversion E; subst. exact I.
   - cbn [forallb] in Hrf. apply andb_true_iff in Hrf. destruct Hrf as [Hr1 Hr2].
+    unfold plain_rop in Hr1. apply andb_true_iff in Hr1. destruct Hr1 as [Hr1 Hnr]. apply negb_true_iff in Hnr.
     destruct (reader_step false op (s, lrs)) as [[o [s1 l1]]|] eqn:Es; [|discriminate].
-    destruct (reader_step_S op s lrs o s1 l1 HS Hr1 Es) as [HS1 [ret [Ho HL]]].
+    destruct (reader_step_S op s lrs o s1 l1 HS Hr1 Hnr Es) as [HS1 [ret [Ho HL]]].
     destruct (reader_run false ops (s1, l1)) as [os|] eqn:Er; [|discriminate].
     intros E; inversion E; subst. cbn [trace_ok]. split; [exact HL|]. apply (IH s1 l1 os HS1 Hr2 Er).
 Qed.
@@ -746,7 +750,7 @@ Proof.
 Qed.
 
 Theorem reader_stream size src ops obs : Forall (fun b => 0 <= b) (script_stream src) ->
-  forallb rune_free ops = true ->
+  forallb plain_rop ops = true ->
   reader_run false ops (new_reader size src, -1) = Some obs ->
   trace_ok (script_stream src) 0 ops obs.
 Proof.
@@ -758,7 +762,7 @@ Lemma reader_stream_example :
   let src := [([97;98;99;10], 0); ([100;13], 0); ([10;101], 1)] in
   let ops := [VL [VZ 2]; VL [VZ 4; VZ 10]; VL [VZ 3]; VL [VZ 2]; VL [VZ 6; VZ 3]; VL [VZ 5]; VL [VZ 1; VZ 40]; VL [VZ 3]; VL [VZ 8; VZ 10]; VL [VZ 9]] in
   Forall (fun b => 0 <= b) (script_stream src) /\
-  forallb rune_free ops = true /\ exists obs, reader_run false ops (new_reader 16 src, -1) = Some obs.
+  forallb plain_rop ops = true /\ exists obs, reader_run false ops (new_reader 16 src, -1) = Some obs.
 Proof. cbn zeta. split; [repeat constructor; lia|]. split; [reflexivity|]. eexists. vm_compute. reflexivity. Qed.
 
 (* ---------- Writer stream: sink ++ buffer is exactly the sequence of accepted bytes ---------- *)
@@ -1006,18 +1010,19 @@ Fixpoint wtrace_ok (A : bytes) (ops obs : list val) {struct ops} : Prop :=
 Lemma wall_len s : WInv s -> wtotal s = blen (wall s).
 Proof. unfold WInv, WInvN, wall. intros (H & _). rewrite blen_app. lia. Qed.
 
-Lemma writer_step_S op s o s' : WInv s -> writer_step false op s = Some (o, s') ->
+Lemma writer_step_S op s o s' : WInv s -> is_wreset op = false -> writer_step false op s = Some (o, s') ->
   WInv s' /\ exists ret a, o = VL [VL ret; VZ (wtotal s'); VZ (blen (wout s')); VZ (blen (wbuf s'))] /\
                           wobs_law op ret a (blen (wbuf s')) /\ wall s' = wall s ++ a.
 Proof.
-  intros HI Hstep. destruct (writer_step_inv false op s o s' HI Hstep) as [HI1 _]. split; [exact HI1|].
-  revert Hstep. unfold writer_step.
+  intros HI Hnr Hstep. destruct (writer_step_inv false op s o s' HI Hstep) as [HI1 _]. split; [exact HI1|].
+  revert Hnr Hstep. unfold writer_step, is_wreset.
   destruct op as [z|b|l]; try discriminate.
   destruct l as [|[tag| |] l]; try discriminate.
   destruct tag as [|p|p]; try discriminate.
   repeat (destruct p as [p|p|]; try discriminate).
   all: destruct l as [|x [|? ?]]; try discriminate.
   all: try (destruct x as [c|d|src]; try discriminate).
+  all: intros Hnr; try discriminate Hnr.
   - (* 7 WriteRune *) destruct (w_write_rune c s) as [[n e] s1] eqn:E. intros H; inversion H; subst.
     destruct (w_write_rune_wall c s n e s' HI E) as (Hn & Hw & He).
     eexists [VZ n; VZ e], _. split; [reflexivity|]. split; [|exact Hw].
@@ -1045,26 +1050,167 @@ Proof.
     split; [reflexivity|split; assumption].
 Qed.
 
-Theorem writer_run_S : forall ops s obs, WInv s -> writer_run false ops s = Some obs ->
-  wtrace_ok (wall s) ops obs.
+Theorem writer_run_S : forall ops s obs, WInv s -> forallb (fun op => negb (is_wreset op)) ops = true ->
+  writer_run false ops s = Some obs -> wtrace_ok (wall s) ops obs.
 Proof.
-  induction ops as [|op ops IH]; intros s obs HI; cbn [writer_run].
+  induction ops as [|op ops IH]; intros s obs HI Hnr; cbn [writer_run].
   - intros E; inversion E; subst. exists (wbuf s). reflexivity.
-  - destruct (writer_step false op s) as [[o s1]|] eqn:Es; [|discriminate].
-    destruct (writer_step_S op s o s1 HI Es) as [HI1 [ret [a [Ho [HL Hw]]]]].
+  - cbn [forallb] in Hnr. apply andb_true_iff in Hnr. destruct Hnr as [Hn1 Hn2]. apply negb_true_iff in Hn1.
+    destruct (writer_step false op s) as [[o s1]|] eqn:Es; [|discriminate].
+    destruct (writer_step_S op s o s1 HI Hn1 Es) as [HI1 [ret [a [Ho [HL Hw]]]]].
     destruct (writer_run false ops s1) as [os|] eqn:Er; [|discriminate].
     intros E; inversion E; subst. cbn [wtrace_ok]. exists a. split; [exact HL|]. split.
     + rewrite <- Hw. apply wall_len. exact HI1.
-    + rewrite <- Hw. apply (IH s1 os HI1 Er).
+    + rewrite <- Hw. apply (IH s1 os HI1 Hn2 Er).
 Qed.
 
-Theorem writer_stream size sink ops obs :
+Theorem writer_stream size sink ops obs : forallb (fun op => negb (is_wreset op)) ops = true ->
   writer_run false ops (new_writer size sink) = Some obs -> wtrace_ok [] ops obs.
 Proof.
-  intros Hr. apply (writer_run_S ops (new_writer size sink) obs (new_writer_inv size sink) Hr).
+  intros Hn Hr. apply (writer_run_S ops (new_writer size sink) obs (new_writer_inv size sink) Hn Hr).
 Qed.
 
 Lemma writer_stream_example :
   exists obs, writer_run false [VL [VZ 1; VB [1;2;3;4;5;6;7]]; VL [VZ 2; VZ 8]; VL [VZ 6; VL [VL [VB [9;10;11]; VZ 1]]]; VL [VZ 3; VB [12;13]]; VL [VZ 4]]
                          (new_writer 4 [(2, 0); (5000, 0); (1, 8)]) = Some obs.
 Proof. eexists. vm_compute. reflexivity. Qed.
+
+(* ---------- the io.WriterTo-source and io.ReaderFrom-sink variants ---------- *)
+Lemma src_drain_stream : forall sc d e rest, src_drain sc = (d, e, rest) -> script_stream sc = d ++ script_stream rest.
+Proof.
+  unfold script_stream. induction sc as [|[d0 e0] r IH]; intros d e rest; cbn [src_drain].
+  - intros E; inversion E; subst. reflexivity.
+  - destruct (e0 =? 0).
+    + destruct (src_drain r) as [[d2 e2] r2] eqn:Ed. intros E; inversion E; subst.
+      simpl. rewrite (IH _ _ _ eq_refl), app_assoc. reflexivity.
+    + intros E; inversion E; subst. reflexivity.
+Qed.
+
+Lemma w_readfrom_rf_wall src s n e s' : WInv s -> w_readfrom_rf src s = (n, e, s') ->
+  wall s' = wall s ++ firstn (Z.to_nat n) (script_stream src) /\ 0 <= n <= blen (script_stream src).
+Proof.
+  unfold w_readfrom_rf. intros HI. destruct (wbuf s) as [|x b] eqn:Eb.
+  - destruct (src_drain src) as [[d e0] rest] eqn:Ed. pose proof (src_drain_stream _ _ _ _ Ed) as Hs.
+    intros E; inversion E; subst; clear E. pose proof (blen_nonneg d). pose proof (blen_nonneg (script_stream rest)).
+    split; [|rewrite Hs, blen_app; lia].
+    rewrite Hs, firstn_prefix_len. unfold wall. cbn [wout wbuf]. rewrite Eb, !app_nil_r. reflexivity.
+  - apply w_readfrom_wall. exact HI.
+Qed.
+
+Section StreamWT.
+Variable S : bytes.
+Lemma rd_writeto_wt_S s d e s' : InvS S s -> rd_writeto_wt s = (d, e, s') -> InvS S s' /\ data_law S s s' d.
+Proof.
+  intros HS. pose proof HS as (HI & HtS & HR & HP & HL).
+  pose proof HI as (Hc & Hr0 & Hrw & Hwc & Ht & Hrt & Hl0).
+  pose proof (rd_writeto_wt_inv s d e s' HI) as Hinv.
+  unfold rd_writeto_wt in *.
+  set (s0 := mkR (rbuf s) (rr s) (rw s) (rerr s) (-1) (rtotal s) (rsrc s) (rpulled s)) in *.
+  (* after write_buf: everything buffered went out, the window is empty *)
+  assert (Hwb : exists s1 out, write_buf [] s0 = (out, s1) /\ rr s1 = rw s1 /\ rlast s1 = -1 /\
+            rtotal s1 = rtotal s + blen out /\ out = sub S (rtotal s) (rtotal s + blen out) /\
+            rtotal s1 <= blen S /\ 0 <= blen out /\
+            skipn (Z.to_nat (rtotal s1)) S = script_stream (rsrc s1) /\ Inv s1).
+  { destruct (Z_lt_ge_dec (rr s) (rw s)) as [Hlt|Hge].
+    - assert (HS0 : InvS S s0).
+      { split; [unfold Inv, rcap, s0 in *; cbn [rbuf rr rw rerr rlast rtotal rsrc rpulled]; repeat split; lia|].
+        unfold s0, R, window, PrefA, PrefB, LastOK in *. cbn [rbuf rr rw rerr rlast rtotal rsrc rpulled].
+        split; [exact HtS|]. split; [exact HR|]. split; [|lia].
+        right. destruct HP as [[Heq _]|HB]; [lia|exact HB]. }
+      destruct (write_buf [] s0) as [out s1] eqn:E1.
+      destruct (write_buf_S S [] s0 out s1 HS0 eq_refl Hlt E1) as (HS1 & Hl1 & Ht1 & Ho1).
+      exists s1, out. split; [reflexivity|].
+      assert (Hblen : blen out = buffered s0).
+      { rewrite Ho1. cbn [app]. pose proof HS1 as (_ & HtS1 & _). rewrite Ht1 in HtS1.
+        rewrite sub_length; unfold buffered, s0 in *; cbn [rr rw rtotal] in *; lia. }
+      pose proof HS1 as (HI1 & HtS1 & HR1 & _).
+      assert (Hrw1 : rr s1 = rw s1) by (unfold write_buf in E1; inversion E1; reflexivity).
+      split; [exact Hrw1|]. split; [exact Hl1|]. split; [rewrite Ht1, Hblen; reflexivity|].
+      split; [rewrite Hblen; exact Ho1|]. split; [exact HtS1|]. split; [apply blen_nonneg|]. split; [|exact HI1].
+      rewrite HR1. unfold R. pose proof (window_len s1 HI1) as Hwl.
+      destruct (window s1); [reflexivity|]. unfold blen in Hwl. simpl in Hwl. lia.
+    - assert (Heq : rr s = rw s) by lia.
+      assert (Hw0 : window s = []).
+      { pose proof (window_len s HI) as Hwl. destruct (window s); [reflexivity|]. unfold blen in Hwl. simpl in Hwl. lia. }
+      assert (HI0 : Inv s0).
+      { unfold Inv, rcap, s0 in *. cbn [rbuf rr rw rerr rlast rtotal rsrc rpulled]. repeat split; lia. }
+      assert (HIa : Inv (advance s0 (rw s0) (rlast s0) (buffered s0))).
+      { apply advance_inv; [exact HI0|unfold buffered, s0; cbn [rr rw]; lia|unfold buffered, s0; cbn [rr rw]; lia|lia|unfold s0; cbn [rlast]; lia]. }
+      exists (advance s0 (rw s0) (rlast s0) (buffered s0)), []. unfold write_buf. cbn [app].
+      replace (window s0) with (@nil Z) by (symmetry; exact Hw0).
+      split; [reflexivity|]. split; [reflexivity|]. split; [reflexivity|].
+      change (blen []) with 0. rewrite !Z.add_0_r, sub_empty.
+      assert (Hb0 : buffered s0 = 0) by (unfold buffered, s0; cbn [rr rw]; lia).
+      split; [unfold advance; cbn [rtotal]; rewrite Hb0; unfold s0; cbn [rtotal]; lia|].
+      split; [reflexivity|].
+      split; [unfold advance; cbn [rtotal]; rewrite Hb0; unfold s0; cbn [rtotal]; lia|].
+      split; [lia|]. split; [|exact HIa].
+      unfold advance. cbn [rtotal rsrc]. rewrite Hb0. unfold s0. cbn [rtotal rsrc]. rewrite Z.add_0_r, HR. unfold R. rewrite Hw0. reflexivity. }
+  destruct Hwb as (s1 & out & E1 & Hrw1 & Hl1 & Ht1 & Ho1 & HtS1 & Hout0 & HR1 & HI1).
+  rewrite E1 in *. destruct (src_drain (rsrc s1)) as [[d0 e0] rest] eqn:Ed.
+  pose proof (src_drain_stream _ _ _ _ Ed) as Hstream.
+  intros E. specialize (Hinv E). inversion E; subst; clear E.
+  pose proof (blen_nonneg d0) as Hd0.
+  assert (HR1' : skipn (Z.to_nat (rtotal s1)) S = d0 ++ script_stream rest) by (rewrite HR1, Hstream; reflexivity).
+  destruct (S_consume S (rtotal s1) d0 (script_stream rest) (blen d0) ltac:(lia) HR1' ltac:(lia)) as (Hsk & Hle & Hsub).
+  assert (Hz : (rr s1 =? rw s1) = true) by lia. rewrite Hz in *.
+  split.
+  - split; [exact Hinv|]. cbn [rtotal rr rw rlast rbuf rsrc]. split; [apply Hle; exact HtS1|]. split; [|split].
+    + rewrite Hsk. unfold R, window. cbn [rbuf rr rw rsrc]. rewrite sub_empty.
+      unfold blen. rewrite Nat2Z.id, skipn_all. reflexivity.
+    + right. intros i Hi. cbn [rr] in Hi. lia.
+    + unfold LastOK. cbn [rlast]. lia.
+  - unfold data_law. cbn [rtotal]. rewrite blen_app. split; [|lia].
+    rewrite (sub_split S (rtotal s) (rtotal s + blen out) (rtotal s + (blen out + blen d0))) by lia.
+    rewrite <- Ho1. f_equal. rewrite <- Ht1.
+    replace (rtotal s + (blen out + blen d0)) with (rtotal s1 + blen d0) by lia.
+    rewrite Hsub. unfold blen. rewrite Nat2Z.id, firstn_all. reflexivity.
+Qed.
+End StreamWT.
+
+(* ---------- ReadRune ---------- *)
+Section StreamRune.
+Variable S : bytes.
+Lemma rd_rune_fill_S : forall fuel s, InvS S s -> InvS S (rd_rune_fill fuel s) /\ rtotal (rd_rune_fill fuel s) = rtotal s.
+Proof.
+  induction fuel as [|f IH]; intros s HS; cbn [rd_rune_fill]; [split; [apply set_err_invS; exact HS|reflexivity]|].
+  destruct ((rw s <? rr s + 4) && negb (full_rune (window s)) && (rerr s =? 0)); [|split; [exact HS|reflexivity]].
+  destruct (fill_invS S s HS) as (HS1 & _ & Ht1 & _). destruct (IH (fill s) HS1) as [H1 H2].
+  split; [exact H1|]. rewrite H2. exact Ht1.
+Qed.
+
+(* on success the size bytes at the position decode to exactly (r, size) *)
+Lemma rd_rune_S s r size e s' lrs' : InvS S s -> rd_rune s = (r, size, e, s', lrs') ->
+  InvS S s' /\
+  (if e =? 0 then 1 <= size <= 4 /\ rtotal s' = rtotal s + size /\
+                  decode_rune (sub S (rtotal s) (rtotal s + size)) = (r, size)
+   else rtotal s' = rtotal s /\ size = 0).
+Proof.
+  intros HS. pose proof HS as (HI & _). unfold rd_rune.
+  destruct (rd_rune_fill_S (rfuel s) s HS) as [HS1 Ht1]. pose proof (rd_rune_fill_exit (rfuel s) s HI) as Hexit.
+  set (s1 := rd_rune_fill (rfuel s) s) in *. pose proof HS1 as (HI1 & HtS1 & HR1 & _).
+  destruct (rr s1 =? rw s1) eqn:Er.
+  - intros E; inversion E; subst; clear E. split; [apply set_err_invS; exact HS1|].
+    assert (rerr s1 <> 0) by (apply Hexit; lia). destruct (rerr s1 =? 0) eqn:E0; [lia|].
+    unfold set_err. cbn [rtotal]. split; [exact Ht1|reflexivity].
+  - destruct (rune_size_bound s1 HI1 ltac:(lia)) as [Hb H4]. unfold rune_size in Hb, H4.
+    pose proof (window_len s1 HI1) as Hwl. pose proof HI1 as (Hc & Hr0 & Hrw & Hwc & Ht & Hrt & _).
+    assert (Hw : window s1 <> []) by (intro H0; rewrite H0 in Hwl; unfold blen in Hwl; simpl in Hwl; lia).
+    set (c := nth (Z.to_nat (rr s1)) (rbuf s1) 0) in *.
+    assert (Hc0 : c = hd 0 (window s1)).
+    { unfold c. rewrite (nth_window s1 (rr s1) HI1 ltac:(lia)), Z.sub_diag. destruct (window s1); [congruence|reflexivity]. }
+    assert (Hdec : (if c <? 128 then (c, 1) else decode_rune (window s1)) = decode_rune (window s1)).
+    { destruct (c <? 128) eqn:E128; [|reflexivity]. destruct (window s1) as [|b0 t]; [congruence|].
+      simpl in Hc0. subst b0. unfold decode_rune. rewrite E128. reflexivity. }
+    rewrite Hdec in *. destruct (decode_rune (window s1)) as [r0 k] eqn:Ek. cbn [snd] in Hb, H4.
+    intros E; inversion E; subst; clear E.
+    destruct (window_last S s1 lrs' 0 HS1 ltac:(lia)) as (Hlast & _ & _).
+    destruct (consume_invS S s1 lrs' (last (sub (rbuf s1) (rr s1) (rr s1 + lrs')) 0) HS1 ltac:(lia)
+                ltac:(intros _ _; exact Hlast)) as (HS2 & Hd & _).
+    split; [exact HS2|]. cbn [Z.eqb]. split; [lia|]. split; [unfold advance; cbn [rtotal]; lia|].
+    rewrite <- Ht1, <- Hd.
+    assert (Hsub : sub (rbuf s1) (rr s1) (rr s1 + lrs') = firstn (Z.to_nat lrs') (window s1)).
+    { unfold window, sub. replace (rr s1 + lrs' - rr s1) with lrs' by lia. rewrite firstn_firstn. f_equal. unfold buffered in *. lia. }
+    rewrite Hsub. pose proof (decode_rune_prefix (window s1) Hw) as Hp. rewrite Ek in Hp. cbn [snd] in Hp. exact Hp.
+Qed.
+End StreamRune.
